@@ -1,6 +1,6 @@
 (* C17 -- No input can crash or wedge a read. Property theorems only (the model-level half; signals,
    unsafe code and the kernel are outside the model: see the junk stream). *)
-From RL Require Import UData LineBuffer KillRing Editor EditorRun ProgressProofs DecoderProofs UndoEditor NoPanic ReadNoPanic MainLoop.
+From RL Require Import UData LineBuffer LineBufferAll KillRing Editor EditorRun ProgressProofs DecoderProofs UndoEditor KillRingProofs NoPanic ReadNoPanic MainLoop.
 
 (* the byte decoder is total, for EVERY character stream and chunking, both timeout settings: it yields a
    key having consumed at least one character, or reports the end of the input / an undecodable byte;
@@ -91,18 +91,34 @@ Print Assumptions C17_next_cmd_never_panics.
 Theorem C17_read_never_panics :
   forall (U : UData) (cfg : config), c_has_helper cfg = false ->
   forall prompt initial kr inp, kr_inv kr -> fst (read_line U cfg prompt initial [] kr inp) <> OPanic.
-Proof. exact read_never_panics. Qed.
+Proof. intros U cfg Hh prompt initial kr inp. exact (read_never_panics U cfg prompt initial kr inp Hh). Qed.
 Print Assumptions C17_read_never_panics.
 
-(* ... and in EMACS MODE (the default) with ANY history: the incremental-search sub-loop included -- every key of
-   the search, hits replacing the line, abort restoring the typed line and cutting the undo stack back to its mark
-   (which is then exactly the stack from before the search). This is the configuration of `DefaultEditor` (no helper)
-   with the default edit mode. In vi mode the same statement does not hold of the invariant used (known finding K9). *)
+(* ... and in EMACS MODE (the default), with ANY history and ANY helper whose completer keeps its contract (the span it
+   asks to replace starts on a character boundary at or before the cursor; hinter, highlighter and validator are
+   arbitrary): the incremental-search sub-loop (every key of the search, hits replacing the line, abort restoring
+   the typed line and cutting the undo stack back to its mark -- which is then exactly the stack from before) and the
+   completion sub-loops (circular: candidates shown in turn, the original again, abort; list: common prefix, listing,
+   paging question) included. In vi mode with a history or a helper the same statement does not hold of the
+   invariant used (known finding K9). *)
 Theorem C17_read_never_panics_emacs :
-  forall (U : UData) (cfg : config), c_has_helper cfg = false -> is_emacs cfg = true ->
+  forall (U : UData) (cfg : config), is_emacs cfg = true ->
+  (forall text p, bd text p -> bd text (fst (c_complete cfg text p)) /\ fst (c_complete cfg text p) <= p) ->
   forall history prompt initial kr inp, kr_inv kr -> fst (read_line U cfg prompt initial history kr inp) <> OPanic.
-Proof. intros U cfg Hh He history prompt initial kr inp. exact (read_never_panics_emacs U cfg Hh He history prompt initial kr inp). Qed.
+Proof. intros U cfg He Hc history prompt initial kr inp. exact (read_never_panics_emacs U cfg He history Hc prompt initial kr inp). Qed.
 Print Assumptions C17_read_never_panics_emacs.
+
+(* non-vacuity of the hypotheses: an Emacs-mode configuration with a helper whose completer (the scripted one of the
+   correspondence check) keeps the contract, and a consistent kill ring *)
+Example C17_read_hypotheses_hold :
+  let cfg := mk_config Emacs CTCircular true 80 true [[102; 111; 111]; [102; 111; 111; 98; 97; 114]]%N [] VKNone [] in
+  is_emacs cfg = true
+  /\ (forall text p, bd text p -> bd text (fst (c_complete cfg text p)) /\ fst (c_complete cfg text p) <= p)
+  /\ kr_inv (kr_new 60).
+Proof.
+  split; [reflexivity|]. split; [intros text p; apply script_complete_ok|].
+  split; [apply KillRingProofs.kr_new_ok; lia|cbn; discriminate].
+Qed.
 
 (* the state every read starts from satisfies J *)
 Theorem C17_initial_state_ok :
